@@ -365,6 +365,11 @@ func main() {
 	b, err := os.ReadFile(*cpath)
 	must(err)
 	must(json.Unmarshal(b, &cp))
+	// the library's own permanent goroutines (tracer, blank node id generator) are not the statement's
+	mkPlan(memory.NewStore(), "show graphs;")
+	for id := range badwolfGoroutines() {
+		ignored[id] = true
+	}
 	switch mode {
 	case "calls":
 		runCalls(*out)
